@@ -42,12 +42,16 @@ type vzConfig struct {
 	parkStores       bool
 	rotate           bool
 	rotatePowersOnly bool
+	surge            bool // with rotate: the total power triples with every height
 	dropDupMapper    bool
 	maxSteps         int
+	progressWindow   int // steps without any finalization after which the run is cut off (0 = maxSteps/4)
 	// fault rates, per thousand scheduler steps (0 = kind disabled in this run)
 	rDup, rReplay, rEarlyTimer, rCrash, rPartition, rCorrupt, rEquivocate, rStall int
 	rLull                                                                         int // per cent, drawn every 16th step: inputs pause until the nodes are quiet, then C11 currency is judged
 	rCancel                                                                       int // cancel the context of a message handler in flight (a p2p validator deadline)
+	netRecover                                                                    bool // H-NET: frames lost to a down node are retransmitted, lagging nodes are fed committed headers of their peers (header sync), partitions heal when nothing else is left to do
+	byzProposals                                                                  bool // H-NET: a Byzantine proposer's header goes out in two versions to two audiences
 	oracles                                                                       map[string]bool
 }
 
@@ -106,6 +110,10 @@ type vzWorld struct {
 	lastErr       map[string]string   // node ident -> last ERROR log line of its engine
 	replayEnabled bool
 	adv           *vzAdv
+	lost          map[int][]*vzMsg // frames that were dropped because the recipient was down, per recipient (retransmitted later)
+	syncBusy      map[int]bool     // a header-sync request to that node is in flight
+	nSync         int
+	recoveries    int
 
 	orc vzOracles
 }
@@ -518,6 +526,15 @@ func (w *vzWorld) nextValidators(h uint64) []tmconsensus.Validator {
 	copy(out, vals)
 	for i := range out {
 		out[i].Power = w.cfg.powers[i] + (h+uint64(i))%3
+		if w.cfg.surge {
+			// stake grows a lot from height to height (same keys): thresholds computed from an older
+			// total are far off
+			f := uint64(1)
+			for k := w.cfg.initialHeight; k <= h && k < w.cfg.initialHeight+8; k++ {
+				f *= 3
+			}
+			out[i].Power *= f
+		}
 	}
 	if w.cfg.rotatePowersOnly {
 		return out // same keys in the same order, different powers
@@ -819,18 +836,184 @@ func (w *vzWorld) broadcast(from *vzNode, cm tmcodec.ConsensusMessage, kind stri
 			w.seenProposals[k] = append(w.seenProposals[k], string(cm.ProposedHeader.Header.Hash))
 		}
 	}
+	var alt []byte
+	if from.byz && w.cfg.byzProposals && cm.ProposedHeader != nil && !bytes.HasSuffix(cm.ProposedHeader.Header.DataID, []byte("-fork")) {
+		// its own proposal: a second header for the same height and round (equivocation);
+		// somebody else's: now and then an out-of-turn proposal with the same content
+		own := cm.ProposedHeader.ProposerPubKey != nil && cm.ProposedHeader.ProposerPubKey.Equal(w.fx.PrivVals[from.idx].Val.PubKey)
+		if w.s.Pct("byz-two-proposals", map[bool]int{true: 70, false: 10}[own]) {
+			alt = w.forkProposal(from, b)
+		}
+	}
 	for j := range w.nodes {
 		if j == from.idx {
 			continue
 		}
+		data := b
+		if alt != nil && w.s.Pct("byz-proposal-audience", 50) {
+			data = alt
+		}
 		w.nextMsg++
-		m := &vzMsg{id: w.nextMsg, from: from.idx, to: j, kind: kind, data: b}
+		m := &vzMsg{id: w.nextMsg, from: from.idx, to: j, kind: kind, data: data}
 		w.inflight = append(w.inflight, m)
 		if len(w.sentLog) < 4000 {
 			w.sentLog = append(w.sentLog, m)
 		}
 	}
 	w.s.Probe("sent_" + kind)
+}
+
+// forkProposal: the Byzantine proposer signs a second, different header for the same height and
+// round (proposal equivocation); some peers get the one, some the other. Called with w.mu held.
+func (w *vzWorld) forkProposal(from *vzNode, frame []byte) []byte {
+	var cm tmcodec.ConsensusMessage
+	if err := w.codec.UnmarshalConsensusMessage(frame, &cm); err != nil || cm.ProposedHeader == nil {
+		return nil
+	}
+	ph := *cm.ProposedHeader
+	ph.Header.DataID = append(append([]byte(nil), ph.Header.DataID...), []byte("-fork")...)
+	w.fx.RecalculateHash(&ph.Header)
+	w.fx.SignProposal(context.Background(), &ph, from.idx)
+	b, err := w.codec.MarshalConsensusMessage(tmcodec.ConsensusMessage{ProposedHeader: &ph})
+	if err != nil {
+		return nil
+	}
+	k := fmt.Sprintf("%d/%d", ph.Header.Height, ph.Round)
+	w.seenProposals[k] = append(w.seenProposals[k], string(ph.Header.Hash))
+	w.s.Fault("byzantine_proposal_equivocation")
+	w.s.Logf("fault: n%d proposes a second header %x for %s", from.idx, trunc(string(ph.Header.Hash)), k)
+	return b
+}
+
+// healAll ends every partition and stall (the faults stop); it reports whether anything changed.
+func (w *vzWorld) healAll() bool {
+	w.mu.Lock()
+	defer w.mu.Unlock()
+	if len(w.blocked) == 0 && len(w.stalled) == 0 {
+		return false
+	}
+	w.blocked = map[[2]int]bool{}
+	w.stalled = map[int]int{}
+	w.recoveries++
+	w.s.Fault("heal")
+	w.s.Logf("recovery: nothing left to do, every partition and stall ends")
+	return true
+}
+
+// recoveryActions: retransmission of frames that were lost because the recipient was down, and
+// header sync (a node that lacks a height some correct peer has committed is offered that peer's
+// committed header through the engine's replayed-header channel, as a header-sync service would).
+func (w *vzWorld) recoveryActions() []vsimcore.Action {
+	var acts []vsimcore.Action
+	w.mu.Lock()
+	defer w.mu.Unlock()
+	for _, nd := range w.nodes {
+		nd := nd
+		if nd.down || nd.dead || nd.e == nil {
+			continue
+		}
+		if n := len(w.lost[nd.idx]); n > 0 {
+			acts = append(acts, vsimcore.Action{Name: fmt.Sprintf("retransmit to n%d", nd.idx), Weight: 1, Do: func() {
+				w.mu.Lock()
+				l := w.lost[nd.idx]
+				k := len(l)
+				if k > 40 {
+					k = 40
+				}
+				for _, m := range l[:k] {
+					w.nextMsg++
+					w.inflight = append(w.inflight, &vzMsg{id: w.nextMsg, from: m.from, to: m.to, kind: m.kind, data: m.data})
+				}
+				w.lost[nd.idx] = l[k:]
+				w.mu.Unlock()
+				w.s.Fault("lost_frames_retransmitted")
+				w.s.Logf("retransmit %d lost frames to n%d", k, nd.idx)
+			}})
+		}
+		if nd.byz || nd.replayCh == nil || w.syncBusy[nd.idx] {
+			continue
+		}
+		next := w.cfg.initialHeight
+		for {
+			if _, ok := nd.disk.commitCH[next]; !ok {
+				break
+			}
+			next++
+		}
+		var donor *vzNode
+		for _, o := range w.nodes {
+			if o != nd && !o.byz {
+				if _, ok := o.disk.commitCH[next]; ok {
+					donor = o
+					break
+				}
+			}
+		}
+		if donor == nil {
+			continue
+		}
+		h := next
+		acts = append(acts, vsimcore.Action{Name: fmt.Sprintf("header sync n%d h%d", nd.idx, h), Weight: 1, Do: func() { w.headerSync(nd, donor, h) }})
+	}
+	return acts
+}
+
+func (w *vzWorld) headerSync(nd, donor *vzNode, h uint64) {
+	// the header crosses the wire: the receiver gets its own copy
+	src := donor.disk.commitCH[h]
+	b, err := w.codec.MarshalCommittedHeader(src)
+	if err != nil {
+		panic(err)
+	}
+	var ch tmconsensus.CommittedHeader
+	if err := w.codec.UnmarshalCommittedHeader(b, &ch); err != nil {
+		panic(err)
+	}
+	w.mu.Lock()
+	if w.syncBusy == nil {
+		w.syncBusy = map[int]bool{}
+	}
+	w.syncBusy[nd.idx] = true
+	w.nSync++
+	id := w.nSync
+	ctx, replayCh, ident := nd.ctx, nd.replayCh, nd.ident()
+	w.mu.Unlock()
+	w.s.Fault("header_sync_offered")
+	w.s.Logf("header sync %d: n%d is offered the header n%d committed at height %d (round %d)", id, nd.idx, donor.idx, h, ch.Proof.Round)
+	go func() {
+		defer func() {
+			w.mu.Lock()
+			delete(w.syncBusy, nd.idx)
+			w.mu.Unlock()
+		}()
+		w.s.ParkID(fmt.Sprintf("%s.sync%d", ident, id), "replay", "send")
+		// open finding (C09, "replay for earlier round"): a genuine replay whose commit round is below the
+		// node's voting round panics the kernel; the sync service does not offer those
+		if n := len(nd.disk.nhr); n > 0 && nd.disk.nhr[n-1][0] == h && uint64(ch.Proof.Round) < nd.disk.nhr[n-1][1] {
+			w.s.Probe("header_sync_withdrawn_voting_round_beyond_commit_round")
+			return
+		}
+		resp := make(chan tmelink.ReplayedHeaderResponse, 1)
+		select {
+		case replayCh <- tmelink.ReplayedHeaderRequest{Header: ch.Header, Proof: ch.Proof, Resp: resp}:
+		case <-ctx.Done():
+			return
+		}
+		select {
+		case r := <-resp:
+			// the kernel runs on after it has answered: wait for the scheduler before touching the log
+			w.s.ParkID(fmt.Sprintf("%s.sync%d", ident, id), "replay", "result")
+			w.s.Logf("header sync %d => err=%v", id, r.Err)
+			if r.Err == nil {
+				w.s.Probe("header_sync_accepted")
+			} else {
+				w.s.Probe("header_sync_refused")
+			}
+			w.orc.onReplayResult(nd, ch.Header, ch.Proof, "valid", r.Err)
+		case <-ctx.Done():
+			w.orc.onReplayUnanswered(nd, ch.Header)
+		}
+	}()
 }
 
 // inject puts a harness-made message on the wire to the given recipients.
@@ -870,6 +1053,16 @@ func (w *vzWorld) deliver(m *vzMsg) {
 	w.mu.Unlock()
 	if down {
 		w.s.Probe("message_to_down_node_lost")
+		if w.cfg.netRecover {
+			w.mu.Lock()
+			if w.lost == nil {
+				w.lost = map[int][]*vzMsg{}
+			}
+			if len(w.lost[m.to]) < 800 {
+				w.lost[m.to] = append(w.lost[m.to], m)
+			}
+			w.mu.Unlock()
+		}
 		return
 	}
 	go func() {
@@ -938,7 +1131,7 @@ type vzObservedHandler struct {
 func (o vzObservedHandler) HandleProposedHeader(ctx context.Context, ph tmconsensus.ProposedHeader) tmconsensus.HandleProposedHeaderResult {
 	r := o.e.HandleProposedHeader(ctx, ph)
 	if ctx.Err() == nil {
-		o.w.s.Logf("m%d %d->%d ph %d/%d => %s", o.m.id, o.m.from, o.m.to, ph.Header.Height, ph.Round, r)
+		o.w.s.Logf("m%d %d->%d ph %d/%d %x sig %x => %s", o.m.id, o.m.from, o.m.to, ph.Header.Height, ph.Round, trunc(string(ph.Header.Hash)), trunc(string(ph.Signature)), r)
 		o.w.orc.onHandled(o.nd, o.m, "ph", r.String())
 		if r == tmconsensus.HandleProposedHeaderAccepted {
 			o.w.mu.Lock()
@@ -989,7 +1182,7 @@ func (w *vzWorld) run(done func() bool, extra func() []vsimcore.Action) (stalled
 	for s.Steps < w.cfg.maxSteps && !s.Failed() && !s.Expired() {
 		vsimcore.Wait()
 		w.orc.afterStep()
-		if s.Steps-w.progressAt > w.cfg.maxSteps/4 {
+		if pw := w.cfg.progressWindow; (pw == 0 && s.Steps-w.progressAt > w.cfg.maxSteps/4) || (pw > 0 && s.Steps-w.progressAt > pw) {
 			s.Probe("no_progress_cutoff")
 			w.endReason = "cutoff"
 			return true
@@ -1076,6 +1269,9 @@ func (w *vzWorld) run(done func() bool, extra func() []vsimcore.Action) (stalled
 				acts = append(acts, vsimcore.Action{Name: fmt.Sprintf("restart n%d", nd.idx), Weight: 2, Do: func() { w.start(nd) }})
 			}
 		}
+		if w.cfg.netRecover {
+			acts = append(acts, w.recoveryActions()...)
+		}
 		fireEarly := w.maybeFault(live, len(acts))
 		if len(acts) == 0 || fireEarly {
 			// timers fire when nothing else is enabled (virtual time jumps to the deadline),
@@ -1099,6 +1295,9 @@ func (w *vzWorld) run(done func() bool, extra func() []vsimcore.Action) (stalled
 			}
 		}
 		if len(acts) == 0 {
+			if w.cfg.netRecover && w.recoveries < 6 && w.healAll() {
+				continue
+			}
 			w.endReason = "quiescent"
 			return true
 		}
